@@ -239,3 +239,26 @@ def replay_print(ctx, path, oracle, check):
     print("model: (index of first rejected event, Boolean property form along the trace) ", out.strip()[-200:])
     print("holds" if not fails else "VIOLATED")
     return 0 if not fails else 1
+
+
+def grid_scenarios():
+    """thorough tier: small-scope grid A<=3 x P<=2 x N in {None,1,2,3} x wtt x stop on a 13-point grid x 4 message patterns
+    (5 messages, durations from {0, short, long, never})"""
+    pats = [
+        [(0, US), (0, US), (0, US), (0, US), (0, US)],
+        [(0, 0), (0, 300_000), (1, 3 * US), (2, 0), (US, US)],
+        [(0, 3 * US), (0, -1), (100_000, 300_000), (500_000, US), (2 * US, 0)],
+        [(0, 300_000), (300_000, 300_000), (600_000, 300_000), (900_000, -1), (1_200_000, US)],
+    ]
+    stops = [None, 0, 1, 150_000, 300_000, 300_001, 600_000, 999_999, US, US + 1, 1_300_000, 2 * US, 3_500_000]
+    out = []
+    for A in (1, 2, 3):
+        for P in (0, 1, 2):
+            for N in (None, 1, 2, 3):
+                for k, pat in enumerate(pats):
+                    for st in stops:
+                        wtt = [None, 500_000, 3 * US][(A + P + k + (st or 0)) % 3]
+                        msgs = [dict(at=at, kind="ok", style="async", dur=d, out="ret", ack="sync") for at, d in pat]
+                        hz = 12 * US + (st or 0) + (wtt or 0)
+                        out.append(dict(A=A, P=P, N=N, wtt_us=wtt, stop_us=st, ends=False, ack_type=None, msgs=msgs, horizon_us=hz))
+    return out
